@@ -6,12 +6,21 @@
 // with a global sequence number and the virtual time in ms.  The Lean driver (McpModel/Order/Driver)
 // checks that the log is a run of the proved model and evaluates the property monitor on it.
 //
+// Besides the SDK's own client there is a RAW streamable peer (transports rw, rwj, rh): it speaks HTTP
+// to the server side directly (ServeHTTP of a StreamableServerTransport that the test connected itself,
+// or of the StreamableHTTPHandler), with a legacy protocol version, and POSTs bodies that the SDK
+// client never produces: JSON-RPC batches of 1..16 messages (legal before 2025-06-18, the version
+// assumed when the Mcp-Protocol-Version header is absent), followed — after the POST was answered — by
+// further POSTs.  On rw/rwj the session's reader can be made to pause after reading a given message
+// (`rs=`), so that the session's intake channel backs up while a body is being handed over.
+//
 // Not part of the repository; grafted into package mcp by -overlay.  See DESIGN.md §5 C03, §6 F14.
 package mcp
 
 import (
 	"bytes"
 	"context"
+	"encoding/json"
 	"fmt"
 	"io"
 	"math/rand"
@@ -24,6 +33,8 @@ import (
 	"testing"
 	"testing/synctest"
 	"time"
+
+	"github.com/modelcontextprotocol/go-sdk/jsonrpc"
 )
 
 // ---------------------------------------------------------------------------------------------
@@ -176,10 +187,12 @@ type ordMsg struct {
 	d    int // handler duration, virtual ms
 	gap  int // pause of the sender after issuing it, virtual ms
 	cb   bool // the handler first calls back into the peer on its own context (ListRoots/Ping, ListTools/Ping), then works for d ms
+	b    int  // raw peer: messages with the same b != 0 travel in one POST body (a JSON-RPC batch), in this order
+	rs   int  // raw peer on rw/rwj: the session's reader pauses rs virtual ms after it has read this message
 }
 
 type ordCase struct {
-	tr   string // mem io sse sh shj she shje sl slj
+	tr   string // mem io sse sh shj she shje sl slj · raw peer: rw rwj (own StreamableServerTransport, gated reader) rh (StreamableHTTPHandler)
 	dir  string // c2s · s2c (server goroutine, background context: the session's shared stream) · s2ci (inside a tool handler, request context: the call's own stream)
 	pv   string
 	msgs []ordMsg
@@ -191,7 +204,14 @@ func (m *ordMsg) op(i int) string {
 	if m.cb {
 		cb = 1
 	}
-	return fmt.Sprintf("m %d dir=%s kind=%c meth=%s d=%d gap=%d cb=%d", i, m.dir, m.kind, m.meth, m.d, m.gap, cb)
+	s := fmt.Sprintf("m %d dir=%s kind=%c meth=%s d=%d gap=%d cb=%d", i, m.dir, m.kind, m.meth, m.d, m.gap, cb)
+	if m.b != 0 {
+		s += fmt.Sprintf(" b=%d", m.b)
+	}
+	if m.rs != 0 {
+		s += fmt.Sprintf(" rs=%d", m.rs)
+	}
+	return s
 }
 
 type ordEv struct {
@@ -391,6 +411,186 @@ func (h *ordH) runScript(ctx context.Context, dir string, from int, cs *ClientSe
 	wg.Wait()
 }
 
+// ---------------------------------------------------------------------------------------------
+// Raw streamable peer
+
+// ordGateTransport connects the wrapped StreamableServerTransport and hands out a connection whose
+// Read can pause after a message (a slow session reader: a schedule, nothing the peer controls).
+type ordGateTransport struct {
+	*StreamableServerTransport
+	h *ordH
+}
+
+func (g *ordGateTransport) Connect(ctx context.Context) (Connection, error) {
+	c, err := g.StreamableServerTransport.Connect(ctx)
+	if err != nil {
+		return nil, err
+	}
+	return &ordGateConn{streamableServerConn: c.(*streamableServerConn), h: g.h}, nil
+}
+
+type ordGateConn struct {
+	*streamableServerConn
+	h *ordH
+}
+
+func ordRawTag(params json.RawMessage) int {
+	var p struct {
+		Meta map[string]any `json:"_meta"`
+	}
+	if json.Unmarshal(params, &p) == nil {
+		if v, ok := p.Meta["vtag"].(float64); ok {
+			return int(v)
+		}
+	}
+	return -1
+}
+
+func (g *ordGateConn) Read(ctx context.Context) (jsonrpc.Message, error) {
+	msg, err := g.streamableServerConn.Read(ctx)
+	if req, ok := msg.(*jsonrpc.Request); ok && err == nil {
+		if tag := ordRawTag(req.Params); tag >= 0 && tag < len(g.h.c.msgs) && g.h.c.msgs[tag].rs > 0 {
+			time.Sleep(time.Duration(g.h.c.msgs[tag].rs) * time.Millisecond)
+		}
+	}
+	return msg, err
+}
+
+var ordRawMethod = map[string]string{
+	"initialize": "initialize", "initialized": "notifications/initialized", "prog": "notifications/progress",
+	"roots": "notifications/roots/list_changed", "tool": "tools/call", "ping": "ping", "ltools": "tools/list",
+	"lres": "resources/list", "lprompts": "prompts/list", "level": "logging/setLevel",
+}
+
+func ordRawID(i int) int { return 1000 + i }
+
+// ordRawJSON is message i as the raw peer writes it.
+func (h *ordH) rawJSON(i int) string {
+	m := h.c.msgs[i]
+	meta := fmt.Sprintf(`"_meta":{"vtag":%d}`, i)
+	var params string
+	switch m.meth {
+	case "initialize":
+		params = fmt.Sprintf(`{"protocolVersion":%q,"capabilities":{"roots":{"listChanged":true}},"clientInfo":{"name":"raw","version":"1"},%s}`, h.c.pv, meta)
+	case "prog":
+		params = fmt.Sprintf(`{"progressToken":"tok","progress":%d,"message":"p",%s}`, i, meta)
+	case "tool":
+		params = fmt.Sprintf(`{"name":"t","arguments":{"i":%d},%s}`, i, meta)
+	case "level":
+		params = fmt.Sprintf(`{"level":"debug",%s}`, meta)
+	default:
+		params = "{" + meta + "}"
+	}
+	if m.kind == 'n' {
+		return fmt.Sprintf(`{"jsonrpc":"2.0","method":%q,"params":%s}`, ordRawMethod[m.meth], params)
+	}
+	return fmt.Sprintf(`{"jsonrpc":"2.0","id":%d,"method":%q,"params":%s}`, ordRawID(i), ordRawMethod[m.meth], params)
+}
+
+type ordRaw struct {
+	h       *ordH
+	hc      *http.Client
+	url     string
+	session string // Mcp-Session-Id (rh)
+	pvHdr   string // Mcp-Protocol-Version header, "" = absent
+}
+
+// post sends the messages ids as ONE POST body (a JSON array if batch) and waits for the complete
+// response.  `snd` of every message is logged before, `ret`/`err` of every message after.
+func (r *ordRaw) post(ids []int, batch bool) {
+	var parts []string
+	hasCall := false
+	for _, i := range ids {
+		parts = append(parts, r.h.rawJSON(i))
+		if r.h.c.msgs[i].kind != 'n' {
+			hasCall = true
+		}
+	}
+	body := parts[0]
+	if batch {
+		body = "[" + strings.Join(parts, ",") + "]"
+	}
+	req, err := http.NewRequest(http.MethodPost, r.url, strings.NewReader(body))
+	ok := err == nil
+	var data []byte
+	if ok {
+		req.Header.Set("Content-Type", "application/json")
+		req.Header.Set("Accept", "application/json, text/event-stream")
+		if r.session != "" {
+			req.Header.Set(sessionIDHeader, r.session)
+		}
+		if r.pvHdr != "" {
+			req.Header.Set(protocolVersionHeader, r.pvHdr)
+		}
+		for _, i := range ids {
+			r.h.log("snd", i)
+		}
+		resp, err := r.hc.Do(req)
+		if err != nil {
+			ok = false
+		} else {
+			data, _ = io.ReadAll(resp.Body)
+			resp.Body.Close()
+			if hasCall {
+				ok = resp.StatusCode == http.StatusOK
+			} else {
+				ok = resp.StatusCode == http.StatusAccepted
+			}
+			if sid := resp.Header.Get(sessionIDHeader); sid != "" && r.session == "" {
+				r.session = sid
+			}
+		}
+	}
+	for _, i := range ids {
+		good := ok
+		if good && r.h.c.msgs[i].kind != 'n' {
+			id := fmt.Sprintf(`"id":%d`, ordRawID(i))
+			good = bytes.Contains(data, []byte(id+",")) || bytes.Contains(data, []byte(id+"}"))
+		}
+		if good {
+			r.h.log("ret", i)
+		} else {
+			r.h.log("err", i)
+		}
+	}
+}
+
+// run plays messages from.. of the case: consecutive messages with the same b != 0 are one body.
+func (r *ordRaw) run(from int) {
+	var wg sync.WaitGroup
+	msgs := r.h.c.msgs
+	for i := from; i < len(msgs); {
+		j := i + 1
+		if msgs[i].b != 0 {
+			for j < len(msgs) && msgs[j].b == msgs[i].b {
+				j++
+			}
+		}
+		ids := make([]int, 0, j-i)
+		for k := i; k < j; k++ {
+			ids = append(ids, k)
+		}
+		last := msgs[j-1]
+		if msgs[i].b == 0 && (last.kind == 'g' || last.kind == 'r') {
+			wg.Add(1)
+			go func() {
+				defer wg.Done()
+				r.post(ids, false)
+			}()
+			if last.kind == 'g' {
+				synctest.Wait()
+			}
+		} else {
+			r.post(ids, msgs[i].b != 0)
+		}
+		if last.gap > 0 {
+			time.Sleep(time.Duration(last.gap) * time.Millisecond)
+		}
+		i = j
+	}
+	wg.Wait()
+}
+
 func ordRunCase(t *testing.T, out *verifOut, id string, c *ordCase) {
 	var recs [][3]string
 	recs = append(recs, [3]string{"reset", "ok", "reset"})
@@ -448,6 +648,7 @@ func ordRunCase(t *testing.T, out *verifOut, id string, c *ordCase) {
 		var ct Transport
 		var cleanup []func()
 		var ss *ServerSession
+		var raw *ordRaw
 		getServer := func(*http.Request) *Server { return server }
 		url := "http://verif.invalid/mcp"
 		switch c.tr {
@@ -469,6 +670,22 @@ func ordRunCase(t *testing.T, out *verifOut, id string, c *ordCase) {
 		case "sse":
 			hd := NewSSEHandler(getServer, nil)
 			ct = &SSEClientTransport{Endpoint: url, HTTPClient: &http.Client{Transport: &ordRT{hd}}}
+		case "rw", "rwj":
+			// the application connects a StreamableServerTransport itself and serves HTTP with it (public API)
+			tp := &StreamableServerTransport{SessionID: "verif-raw", jsonResponse: c.tr == "rwj"}
+			s, err := server.Connect(context.Background(), &ordGateTransport{tp, h}, nil)
+			if err != nil {
+				status = "connect-fail"
+			}
+			ss = s
+			raw = &ordRaw{h: h, hc: &http.Client{Transport: &ordRT{tp}}, url: url}
+		case "rh":
+			hd := NewStreamableHTTPHandler(getServer, &StreamableHTTPOptions{})
+			cleanup = append(cleanup, hd.closeAll)
+			raw = &ordRaw{h: h, hc: &http.Client{Transport: &ordRT{hd}}, url: url}
+			if c.pv >= protocolVersion20250618 || len(c.msgs)%2 == 0 {
+				raw.pvHdr = c.pv
+			}
 		default:
 			o := &StreamableHTTPOptions{}
 			rest := strings.TrimPrefix(strings.TrimPrefix(c.tr, "sh"), "sl")
@@ -482,14 +699,31 @@ func ordRunCase(t *testing.T, out *verifOut, id string, c *ordCase) {
 			ct = &StreamableClientTransport{Endpoint: url, HTTPClient: &http.Client{Transport: &ordRT{hd}}}
 		}
 		var cs *ClientSession
-		if status == "ok" {
+		if status == "ok" && raw != nil {
+			// handshake by hand, then the script; everything is a POST of the raw peer
+			hdr := raw.pvHdr
+			raw.pvHdr = ""
+			raw.post([]int{0}, false)
+			raw.pvHdr = hdr
+			raw.post([]int{1}, false)
+			synctest.Wait()
+			raw.run(2)
+			synctest.Wait()
+			settle := 2 * time.Second
+			for _, m := range c.msgs {
+				settle += time.Duration(m.d+m.rs) * time.Millisecond
+			}
+			time.Sleep(settle)
+			synctest.Wait()
+		}
+		if status == "ok" && raw == nil {
 			var err error
 			cs, err = client.Connect(ordCtx(0), ct, &ClientSessionOptions{ProtocolVersion: c.pv})
 			if err != nil {
 				status = "connect-fail"
 			}
 		}
-		if status == "ok" {
+		if status == "ok" && raw == nil {
 			synctest.Wait()
 			if ss == nil {
 				for s := range server.Sessions() {
@@ -595,6 +829,18 @@ func ordRunCase(t *testing.T, out *verifOut, id string, c *ordCase) {
 			if m.cb {
 				tags = append(tags, "callback", h.cbres[i])
 			}
+			if m.b != 0 {
+				n := 0
+				for _, x := range c.msgs {
+					if x.b == m.b {
+						n++
+					}
+				}
+				tags = append(tags, "body", fmt.Sprintf("body=%d", n))
+			}
+			if m.rs != 0 {
+				tags = append(tags, "readerstall")
+			}
 			if b, s := per[i]["beg"], per[i]["snd"]; b != "" && s != "" && b[strings.Index(b, "@"):] != s[strings.Index(s, "@"):] {
 				tags = append(tags, "waited")
 			}
@@ -628,7 +874,79 @@ func ordOverlaps(evs []ordEv) map[int]bool {
 
 var ordLegacy = []string{protocolVersion20251125, protocolVersion20250618, protocolVersion20250326, protocolVersion20241105}
 
+// ordGenRaw: a raw streamable peer.  After the handshake 2-5 (thorough 2-8) POSTs: a JSON-RPC batch of
+// 1..16 messages (mostly notifications; sometimes with calls among them) or a single message, each
+// POST issued after the previous one was answered (single calls also from goroutines of their own).
+// On rw/rwj the session's reader pauses after PRNG-chosen messages — for a body of 12 or more, in half
+// of the cases, after one of its first members, so that the intake channel (10 slots) fills up while
+// the body is handed over.
+func ordGenRaw(rng *rand.Rand, tr string, maxLen int) *ordCase {
+	c := &ordCase{tr: tr, dir: "c2s", pv: ordLegacy[rng.Intn(len(ordLegacy))]}
+	gated := tr != "rh"
+	batchOK := gated || c.pv < protocolVersion20250618
+	dur := func() int {
+		switch rng.Intn(4) {
+		case 0:
+			return 0
+		case 1:
+			return 1 + rng.Intn(3)
+		default:
+			return 1 + rng.Intn(15)
+		}
+	}
+	c.msgs = append(c.msgs, ordMsg{dir: "c2s", kind: 'i', meth: "initialize", d: dur()}, ordMsg{dir: "c2s", kind: 'n', meth: "initialized", d: dur()})
+	units := 2 + rng.Intn(4)
+	if maxLen > 8 {
+		units = 2 + rng.Intn(7)
+	}
+	note := func() ordMsg {
+		return ordMsg{dir: "c2s", kind: 'n', meth: []string{"prog", "roots"}[rng.Intn(2)], d: dur()}
+	}
+	call := func() ordMsg {
+		return ordMsg{dir: "c2s", kind: 'c', meth: []string{"tool", "tool", "ping", "ltools", "lres", "lprompts", "level"}[rng.Intn(7)], d: dur()}
+	}
+	for u := 1; u <= units; u++ {
+		if batchOK && rng.Intn(5) < 3 {
+			n := 1 + rng.Intn(16)
+			withCalls := rng.Intn(4) == 0
+			start := len(c.msgs)
+			for k := 0; k < n; k++ {
+				m := note()
+				if withCalls && rng.Intn(5) == 0 {
+					m = call()
+				}
+				m.b = u
+				c.msgs = append(c.msgs, m)
+			}
+			if gated && n >= 12 && rng.Intn(2) == 0 {
+				c.msgs[start+rng.Intn(n-11)].rs = 20 + rng.Intn(200)
+			}
+		} else {
+			m := note()
+			if rng.Intn(2) == 0 {
+				m = call()
+				m.kind = []byte{'c', 'c', 'c', 'g', 'r'}[rng.Intn(5)]
+			}
+			c.msgs = append(c.msgs, m)
+		}
+		if rng.Intn(4) == 0 {
+			c.msgs[len(c.msgs)-1].gap = 1 + rng.Intn(9)
+		}
+	}
+	if gated {
+		for i := 1; i < len(c.msgs); i++ {
+			if c.msgs[i].rs == 0 && rng.Intn(12) == 0 {
+				c.msgs[i].rs = 1 + rng.Intn(60)
+			}
+		}
+	}
+	return c
+}
+
 func ordGen(rng *rand.Rand, tr string, maxLen int) *ordCase {
+	if strings.HasPrefix(tr, "r") {
+		return ordGenRaw(rng, tr, maxLen)
+	}
 	c := &ordCase{tr: tr}
 	stateless := strings.HasPrefix(tr, "sl")
 	c.pv = ordLegacy[rng.Intn(len(ordLegacy))]
@@ -719,7 +1037,7 @@ func ordGen(rng *rand.Rand, tr string, maxLen int) *ordCase {
 	return c
 }
 
-var ordTransports = []string{"mem", "io", "sse", "sh", "shj", "she", "shje", "sl", "slj"}
+var ordTransports = []string{"mem", "io", "sse", "sh", "shj", "she", "shje", "sl", "slj", "rw", "rwj", "rh"}
 
 func ordParse(lines []string) (*ordCase, bool) {
 	c := &ordCase{}
@@ -746,7 +1064,9 @@ func ordParse(lines []string) (*ordCase, bool) {
 			if k == "" {
 				return nil, false
 			}
-			c.msgs = append(c.msgs, ordMsg{dir: kv(f, "dir"), kind: k[0], meth: kv(f, "meth"), d: d, gap: g, cb: kv(f, "cb") == "1"})
+			b, _ := strconv.Atoi(kv(f, "b"))
+			rs, _ := strconv.Atoi(kv(f, "rs"))
+			c.msgs = append(c.msgs, ordMsg{dir: kv(f, "dir"), kind: k[0], meth: kv(f, "meth"), d: d, gap: g, cb: kv(f, "cb") == "1", b: b, rs: rs})
 		}
 	}
 	return c, c.tr != "" && len(c.msgs) > 0
